@@ -13,7 +13,8 @@ From CC Require Spec.Lanes.
 Import ListNotations.
 Local Open Scope N_scope.
 
-(** machine: 0 SSE2, 1 SSSE3, 2 SSE41, 3 AVX, 4 AVX2.
+(** machine: 0 SSE2, 1 SSSE3, 2 SSE41, 3 AVX, 4 AVX2, 5 SseMachine<YesS3, YesS4, YesNI>,
+    6 Avx2Machine<YesNI> (the NI type parameter selects no code in ppv-lite86: same models as 2 / 4).
     type: 0 u32x4, 1 u64x2, 2 u128x1, 3 u32x4x2, 4 u64x2x2, 5 u64x4, 6 u128x2,
           7 u32x4x4, 8 u64x2x4, 9 u128x4, 10/11/12 vec128/256/512_storage.
     [a], [b]: operands; [x]: element for insert; outcome ok/panic and result. *)
@@ -31,7 +32,7 @@ Definition BI (n : N) (cs : list int) : list N :=
 
 Definition s3_of (m : N) : bool := negb (m =? 0).
 Definition s4_of (m : N) : bool := 2 <=? m.
-Definition avx2_of (m : N) : bool := m =? 4.
+Definition avx2_of (m : N) : bool := (m =? 4) || (m =? 6).
 
 Definition nbytes (ty : N) : nat :=
   match ty with 0 | 1 | 2 | 10 => 16%nat | 3 | 4 | 5 | 6 | 11 => 32%nat | _ => 64%nat end.
@@ -248,6 +249,18 @@ Definition model (c : pxcase) : outcome (list N) :=
       Ok (if wide256 m k then
             (if k =? 3 then avx2_from_u128x2 (regs ty a) else concat (avx4_from_u128x4 (regs ty a)))
           else concat (map sse_into_other (regs ty a)))
+  | 47 => (* UnsafeFrom::unsafe_from on words (types 0, 1) or on lanes built with unpack, then Into<storage> *)
+      Ok (rd_store m ty
+            (if wide256 m ty then concat (map avx2_unpack (regs256 ty a))
+             else match ty with
+                  | 0 => u32x4_unsafe_from (words_le 4 a)
+                  | 1 => u64x2_unsafe_from (words_le 8 a)
+                  | _ => concat (xn_from_lanes (map sse_unpack (regs ty a)))
+                  end))
+  | 36 => (* Default of vec128/256/512_storage: the u128 view zeroed *)
+      Ok (concat (repeat sse_default (nregs ty)))
+  | 37 => (* PartialEq of the storage unions: u128x1 / [vec128_storage; n] / [vec256_storage; 2] compared *)
+      Ok [if forallb (fun p : reg * reg => list_eqb (fst p) (snd p)) (combine (regs ty a) (regs ty b)) then 1 else 0]
   | 50 => Ok (m_transpose4 m a)
   | 51 => Ok (m_to_scalars m a)
   | _ => Panic
@@ -287,7 +300,7 @@ Definition spec (c : pxcase) : outcome (list N) :=
   | 22 => Ok (sp_bytes ty (Lanes.v_bswap w wa))
   | 23 => Ok (sp_bytes ty (lane_perm k wa))
   | 24 => Ok (sp_bytes ty (Lanes.per_lane4 (lane_perm k) wa))
-  | 30 | 44 | 45 | 46 => Ok (sp_bytes ty wa)
+  | 30 | 44 | 45 | 46 | 47 => Ok (sp_bytes ty wa)
   | 31 => if k <? elem_count ty then Ok (nth (N.to_nat k) (elems ty a) []) else Panic
   | 32 => if k <? elem_count ty then Ok (concat (upd (N.to_nat k) x (elems ty a))) else Panic
   | 33 | 34 | 35 =>
@@ -301,6 +314,8 @@ Definition spec (c : pxcase) : outcome (list N) :=
           then Ok (Lanes.write_le (wbytes ty) wa) else Panic
   | 43 => if Nat.eqb (N.to_nat k) (nbytes ty)
           then Ok (Lanes.write_be (wbytes ty) wa) else Panic
+  | 36 => Ok (repeat 0 (nbytes ty))
+  | 37 => Ok [if list_eqb a b then 1 else 0]
   | 50 => let part (i : nat) := chunks_exact 16 64 (firstn 64 (skipn (64 * i)%nat a)) in
           Ok (quad (@concat N) (Lanes.transpose4 [] (part 0%nat) (part 1%nat) (part 2%nat) (part 3%nat)))
   | 51 => Ok (bytes_le 4 (words_le 4 a))
